@@ -280,6 +280,8 @@ def _brief(o):
         return "backward %s retain=%d" % (o["handle"], int(o["retain"]))
     if k == "load":
         return "load %s(%r)" % (o["loader"], o["name"])
+    if k == "func" and o["fn"] == "prepfn":
+        return "func filter-helper #%d(arrays of %s(%r) as loaded)" % (o["pick"], o["loader"], o["name"])
     if k == "func":
         return "func %s %s %s prep=%d" % (o["fn"], o["wave"], o["mode"], int(o["prep"]))
     rest = {x: y for x, y in o.items() if x not in ("op", "id")}
@@ -646,9 +648,10 @@ def write_evidence(prop, tier, seed, agg, static, violations, wall, errors=False
         sw = static.get("sweep")
         if sw:
             cov["single_fault_enumeration"] = {
-                "what": "one fault inside the first load of a table (open error x3; error at "
-                        "every stream call; truncation at byte offsets; inversion of bit 0 and 7 "
-                        "of bytes), then fault-free loads through every entry point + every table",
+                "what": "one fault inside the first load of a table (open error x3; EIO at "
+                        "every stream call; a transient EINTR/ETIMEDOUT/EAGAIN condition starting at "
+                        "every stream call and lasting 2/3/5 consecutive reads; truncation at byte "
+                        "offsets; inversion of bit 0 and 7 of bytes), then fault-free loads through every entry point + every table",
                 "exhaustive": tier == "thorough" and not sw["stopped_early"],
                 "sampling": "every offset" if tier == "thorough" else "every 41st offset / 7th read index",
                 "plans_enumerated": sw["total"], "plans_run": sw["done"], "faults_fired": sw["fired"],
